@@ -296,7 +296,7 @@ func init() {
 			} else {
 				c.R.Inconclusive("HMAC key/message observation: verif hooks unavailable")
 			}
-			runFmtStage(c, false, 1, c.N(100000, 1<<22))
+			runFmtStage(c, false, 1, c.N(100000, 1<<24))
 		},
 		Replay: func(c *Ctx, kind string, raw json.RawMessage) error {
 			switch kind {
